@@ -99,17 +99,8 @@ bool all_nonblocking(uint32_t from, int fn)
 // holds the stream: a blocking read goes on waiting for that descendant (data or
 // end-of-file), a non-blocking one reports would-block - exactly as before the
 // status was returned.
-static int64_t dbg_ms()
-{
-  struct timespec ts;
-  clock_gettime(CLOCK_MONOTONIC, &ts);
-  return (int64_t) ts.tv_sec * 1000 + ts.tv_nsec / 1000000;
-}
-#define DBG(what) do { if (getenv("C17_DEBUG")) { FILE *df = fopen("/tmp/c17dbg.txt", "a"); if (df) { fprintf(df, "C17DBG %d %s +%lld ms\n", (int) getpid(), what, (long long) (dbg_ms() - dbg0)); fclose(df); } } } while (0)
-
 CaseResult run_descendant_holds_stream(Tape &t)
 {
-  int64_t dbg0 = dbg_ms();
   CaseResult res;
   vs_init();
   vs_reset();
@@ -147,7 +138,6 @@ CaseResult run_descendant_holds_stream(Tape &t)
     return res;
   }
   pid_t holder = (pid_t) ack.v[0];
-  DBG("holder spawned");
   std::string fifo = fw::case_dir() + "/ctl/holder";
   // The descendant opens the FIFO for reading only after it has closed every
   // other descriptor (the library's exit handle among them): once the write side
@@ -181,7 +171,6 @@ CaseResult run_descendant_holds_stream(Tape &t)
   w.call_begins(exit_after + 100000);
   reproc_stop_actions sa = { { REPROC_STOP_WAIT, REPROC_INFINITE }, { REPROC_STOP_NOOP, 0 }, { REPROC_STOP_NOOP, 0 } };
   int st = via_stop ? reproc_stop(ch.p, sa) : reproc_wait(ch.p, REPROC_INFINITE);
-  DBG("status obtained");
   auto fail = [&](const std::string &sig, const std::string &m) { res.fail(sig, m); };
   if (st != code) fail("wrong-status", "the child exited with " + std::to_string(code) + " but " + (via_stop ? "stop" : "wait") + " returned " + std::to_string(st));
   REPROC_STREAM rs = stream == 1 ? REPROC_STREAM_OUT : REPROC_STREAM_ERR;
@@ -216,7 +205,6 @@ CaseResult run_descendant_holds_stream(Tape &t)
   } else {
     tell_holder('x');
   }
-  DBG("reads done");
   if (w.hang && res.kind == CaseResult::PASS) fail("blocked-forever", "a call blocked without bound (" + w.hang_what + ")");
   if (!w.trouble.empty()) {
     res.kind = CaseResult::INCONCLUSIVE;
@@ -227,7 +215,6 @@ CaseResult run_descendant_holds_stream(Tape &t)
   reproc_destroy(ch.p);
   std::string lsig, lp = hz::ledger_problems(ch.fds_before, lsig);
   if (!lp.empty() && res.kind == CaseResult::PASS) res.fail(lsig, "after destroy: " + lp);
-  DBG("done");
   return res;
 }
 
